@@ -401,8 +401,12 @@ class Family:
             res.findings += self.failed_rebuild()
         if self.prop in ("C06", "C01"):
             res.findings += self.reentrant_insert()
+        if self.prop == "C11":
+            res.findings += self.reentrant_insert(raising=True)
         if self.prop in ("C01", "C10"):
             res.findings += self.container_test_args()
+        if self.prop in ("C01", "C02", "C10"):
+            res.findings += self.noninjective_transforms()
         res.findings.sort(key=lambda f: (f.signature is not None, f.kind == "correspondence"))
         res.notes.append(f"disagreements attributed to other properties (reported by their own checks): {foreign}")
         return res
@@ -485,6 +489,11 @@ class Family:
              lambda db: db.insert_multiple([late({"a": "ok"}), late({"a": "\udfff"}), late({"a": "ok2"})]), 1),
             ("measurement('m').insert(key with a lone surrogate)", {},
              lambda db: db.measurement("m").insert(late({"k\ud800": "v"})), 0),
+            ("insert(an int field beyond the float range)", {},
+             lambda db: db.insert(tf.Point(time=T + 9 * sec, tags={"a": "big"}, fields={"big": 10 ** 400})), 0),
+            ("insert_multiple([ok, int field beyond the float range, ok])", {},
+             lambda db: db.insert_multiple([late({"a": "ok"}), tf.Point(time=T + 9 * sec, tags={"a": "big"}, fields={"big": -10 ** 400}),
+                                            late({"a": "ok2"})]), 1),
             ("insert(non-ASCII text) into an ascii file", {"encoding": "ascii"}, lambda db: db.insert(late({"a": "é"})), 0),
             ("insert(text with the delimiter) under QUOTE_NONE", {"quoting": csv.QUOTE_NONE},
              lambda db: db.insert(late({"a": "x,y"})), 0),
@@ -609,7 +618,98 @@ class Family:
                              property=self.prop)))
         return out[:1]
 
-    def reentrant_insert(self):
+    def noninjective_transforms(self):
+        """queries whose path transform maps several stored names / values to one (`map(str.lower) == ...`), or whose
+        user function tells apart values that compare equal (0.0 / -0.0, 1 / 1.0): on both paths, through the database and
+        through handles, search / count / select / remove / update select exactly the points on which the query is true"""
+        import math
+        import shutil
+        import tempfile
+
+        tf = C.import_tinyflux()
+        from tinyflux.storages import MemoryStorage
+
+        def is_int(v):
+            return isinstance(v, int)
+
+        def neg_signed(v):
+            return math.copysign(1.0, v) < 0
+
+        names = ["rooms", "Rooms", "other", "ROOMS"]
+        cities = ["paris", "Paris", "rome", "PARIS", None]
+        vals = [0.0, -0.0, 1, 1.0, 2]
+        queries = [
+            ("MeasurementQuery().map(str.lower) == 'rooms'", lambda: tf.MeasurementQuery().map(str.lower) == "rooms"),
+            ("TagQuery().city.map(str.lower) == 'paris'", lambda: tf.TagQuery().city.map(str.lower) == "paris"),
+            ("TagQuery().city.map(str.upper) != 'PARIS'", lambda: tf.TagQuery().city.map(str.upper) != "PARIS"),
+            ("FieldQuery().v.test(negative sign)", lambda: tf.FieldQuery().v.test(neg_signed)),
+            ("FieldQuery().v.map(sign) == -1.0", lambda: tf.FieldQuery().v.map(lambda x: math.copysign(1.0, x)) == -1.0),
+            ("FieldQuery().v.test(is an int)", lambda: tf.FieldQuery().v.test(is_int)),
+            ("(TagQuery().city.map(str.lower) == 'paris') & (MeasurementQuery().map(str.lower) == 'rooms')",
+             lambda: (tf.TagQuery().city.map(str.lower) == "paris") & (tf.MeasurementQuery().map(str.lower) == "rooms")),
+        ]
+        out = []
+        root = tempfile.mkdtemp(prefix="vf_noninj_")
+        n = 0
+        try:
+            for st in ("mem", "csv"):
+                for au in (True, False):
+                    for label, build in queries:
+                        n += 1
+                        if st == "csv" and "is an int" in label:
+                            # the file holds every number as a float text: 1 comes back as 1.0, an equal value of another
+                            # type (C05 promises an equal point) — a function of the type is not a function of the value
+                            continue
+
+                        def fresh_db():
+                            nonlocal n
+                            n += 1
+                            db = (tf.TinyFlux(storage=MemoryStorage, auto_index=au) if st == "mem"
+                                  else tf.TinyFlux(os.path.join(root, f"n{n}.csv"), auto_index=au))
+                            for i in range(20):
+                                tags = {"id": str(i)}
+                                if cities[i % 5] is not None:
+                                    tags["city"] = cities[i % 5]
+                                db.insert(tf.Point(time=V.dt_of(G.T0 + i), measurement=names[i % 4], tags=tags,
+                                                   fields={"v": vals[(i // 2) % 5]}))
+                            return db
+
+                        db = fresh_db()
+                        q = build()
+                        stored = db.all(sorted=False)
+                        want_ids = [p.tags["id"] for p in stored if q(p)]
+                        want_h = [p.tags["id"] for p in stored if p.measurement == "ROOMS" and q(p)]
+                        got = {}
+                        try:
+                            got["db.search(q)"] = [p.tags["id"] for p in db.search(q, sorted=False)]
+                            got["db.count(q)"] = db.count(q)
+                            got["db.select('tags.id', q)"] = list(db.select("tags.id", q))
+                            got["db.measurement('ROOMS').search(q)"] = [p.tags["id"] for p in db.measurement("ROOMS").search(q, sorted=False)]
+                            got["db.measurement('ROOMS').count(q)"] = db.measurement("ROOMS").count(q)
+                            got["db.count(q, 'ROOMS')"] = db.count(q, "ROOMS")
+                            got["db.measurement('ROOMS').update(q, tags={'seen': '1'})"] = db.measurement("ROOMS").update(q, tags={"seen": "1"})
+                            got["db.remove(q)"] = db.remove(q)
+                            got["ids left after db.remove(q)"] = [p.tags["id"] for p in db.all(sorted=False)]
+                        except Exception as e:
+                            got["raised"] = type(e).__name__ + ": " + str(e)[:80]
+                        want = {"db.search(q)": want_ids, "db.count(q)": len(want_ids), "db.select('tags.id', q)": want_ids,
+                                "db.measurement('ROOMS').search(q)": want_h, "db.measurement('ROOMS').count(q)": len(want_h),
+                                "db.count(q, 'ROOMS')": len(want_h),
+                                "db.measurement('ROOMS').update(q, tags={'seen': '1'})": len(want_h), "db.remove(q)": len(want_ids),
+                                "ids left after db.remove(q)": [str(i) for i in range(20) if str(i) not in want_ids]}
+                        bad = {k: v for k, v in got.items() if k == "raised" or v != want[k]}
+                        db.close()
+                        if bad:
+                            out.append(Finding(
+                                "impl-vs-spec", f"{st}/{'auto' if au else 'noauto'}: q = {label} over 20 points whose names / values the "
+                                f"transform maps together: " + "; ".join(f"{k} = {v} (expected {want.get(k)})" for k, v in bad.items())[:600],
+                                dict(family="hist-noninjective", query=label, storage=st, auto_index=au, property=self.prop,
+                                     observed={k: str(v) for k, v in bad.items()})))
+        finally:
+            shutil.rmtree(root, ignore_errors=True)
+        return out[:1]
+
+    def reentrant_insert(self, raising=False):
         """`insert_multiple` consuming a generator that reads the same database between yields ("insert if absent"):
         every read may rebuild the index in the middle of the call; afterwards a valid index must equal a rebuilt one"""
         import shutil
@@ -649,9 +749,20 @@ class Family:
                                     db.insert(tf.Point(time=V.dt_of(G.T0 + 150), tags={"a": "x", "id": "nested"}))
                                 if not db.contains(tf.TimeQuery() == p.time):     # a read in the middle of the insert
                                     yield p
+                            if raising:
+                                yield "not a point"          # the call raises after everything before was stored (C11)
 
                         try:
                             db.insert_multiple(absent())
+                            if raising:
+                                out.append(Finding("impl-vs-spec", f"{st}: insert_multiple accepted a non-Point at the end of a generator",
+                                                   dict(family="hist-reentrant", storage=st, order=order, raising=True)))
+                                continue
+                        except TypeError as e:
+                            if not raising:
+                                out.append(Finding("impl-vs-spec", f"{st}: insert_multiple(generator reading the database) raised {type(e).__name__}: {e}",
+                                                   dict(family="hist-reentrant", storage=st, order=order)))
+                                continue
                         except Exception as e:
                             out.append(Finding("impl-vs-spec", f"{st}: insert_multiple(generator reading the database) raised {type(e).__name__}: {e}",
                                                dict(family="hist-reentrant", storage=st, order=order)))
@@ -686,7 +797,8 @@ class Family:
                                 "impl-vs-spec",
                                 f"{st}/auto, index {'invalid' if start_invalid else 'valid'} at the start: insert_multiple of a generator that calls "
                                 f"db.contains() before each yield, times +{order}: " + "; ".join(problems)[:500],
-                                dict(family="hist-reentrant", storage=st, order=order, start_invalid=start_invalid, observed=problems)))
+                                dict(family="hist-reentrant", storage=st, order=order, start_invalid=start_invalid, observed=problems,
+                                     raising=raising)))
         finally:
             shutil.rmtree(root, ignore_errors=True)
         return out[:1]
@@ -832,8 +944,12 @@ def replay(payload):
         r = Family(payload.get("property", "C01")).container_test_args()
         print(r[0].summary if r else "container-argument scenario passes")
         return bool(r)
+    if payload.get("family") == "hist-noninjective":
+        r = Family(payload.get("property", "C01")).noninjective_transforms()
+        print(r[0].summary if r else "non-injective transform scenario passes")
+        return bool(r)
     if payload.get("family") == "hist-reentrant":
-        r = Family(payload.get("property", "C06")).reentrant_insert()
+        r = Family(payload.get("property", "C06")).reentrant_insert(raising=bool(payload.get("raising")))
         print(r[0].summary if r else "re-entrant insert scenario passes")
         return bool(r)
     if payload.get("family") == "hist-error-scenario":
